@@ -11,8 +11,9 @@ R(n, k) == [name |-> n, k |-> k]
 \* power references (k = 1) and root-power references (k = 2), written in prefixed, unprefixed and non-SI units
 MCRefs == << R("1 W", 1), R("1 mW", 1), R("1 pW/m^2", 1), R("550 ft*lbf/s", 1), R("440 Hz", 1), R("1 V", 2), R("20 uPa", 2), R("1 psi", 2), R("0.5 kV", 2), R("1 m/s", 2),
             R("1 Pa", 2), R("1 hp", 1), R("1 kn", 2) >>     \* same number and dimension as "1 psi", "1 W", "1 m/s" in other units
-MCJ == IF Tier = 1 THEN {-40, -25, -12, -5, -1, 0, 1, 2, 7, 12, 24, 40} ELSE -40..40
-MCKinds == {"float", "Decimal"}
+\* (6 and 18 give ODD integral levels for root-power references in plain bels, 3 and 9 odd ones for power references)
+MCJ == IF Tier = 1 THEN {-40, -25, -12, -6, -5, -1, 0, 1, 2, 6, 7, 12, 18, 24, 36, 40} ELSE -40..40
+MCKinds == {"float", "Decimal", "int"}      \* "int": the level is written as an int when it is integral (a float otherwise)
 MCNext == TLCGet("level") = 1 /\ \E f \in 1..Len(MCFamilies), r \in 1..Len(MCRefs), j \in MCJ, mk \in MCKinds : Case(f, r, j, mk)
 ExportCase == ev.op # "init" => PrintT("@@E " \o ToJson(ev))
 ExportSystem == ev.op = "init" => PrintT("@@SYS " \o ToJson([families |-> MCFamilies, refs |-> MCRefs]))
